@@ -101,7 +101,7 @@ const c02MaxTxs = 3
 func VerifC02() {
 	ctx := context.Background()
 	now := time.Now().UnixMilli()
-	nTxs := 1 + verifChoose("mempoolTxs", verifParam("maxTxs", 2, c02MaxTxs))
+	nTxs := 1 + verifChoose("mempoolTxs", verifParam("maxTxs", 2, 2))
 	rules := hDefaultRules()
 	if nTxs > 1 && verifChoose("tightBlock", 2) == 1 {
 		// a block limit that only fits one transaction's bandwidth: the second one must be left out consistently
